@@ -130,4 +130,63 @@ theorem remove_keeps_table_wf (n flen : Nat) (pre post : List Entry) (old : Entr
         · exact List.mem_append.mpr (Or.inr (List.mem_cons_of_mem _ h))) ht
     · simp at he; subst he; exact hf.2
 
+/-- the table `add_block` leaves in memory when it accepts the block -/
+theorem addBlock_entries (s : TdfSt) (b : BlkArg) (c : Str) (now : Int) (pos : Nat) (pl : Bytes)
+    (hd : hasType b.typ s.entries = false) (hf : firstUnused s.entries = some pos) (hchk : checkArg b c now = .ok pl)
+    (hh : (s.entries.drop (pos + 1)).any (fun e => e.typ != 0) = false) :
+    (addBlock s b c now).1.entries =
+      s.entries.take pos ++ (⟨b.typ, b.fmt, (s.entries.getD pos unusedEntry).off, b.size, b.cdate, b.mdate, now, c⟩ : Entry)
+        :: (s.entries.drop (pos + 1)).map (fun x => { x with off := (s.entries.getD pos unusedEntry).off + b.size }) := by
+  unfold addBlock
+  simp [hd, hf, hchk, hh]
+
+theorem add_keeps_table_wf (n flen : Nat) (pre post : List Entry) (slot new : Entry) (off' : Int)
+    (hslot : slot.typ = 0) (hnew : new.typ ≠ 0) (hoff : new.off = slot.off) (hsz : 0 ≤ new.size)
+    (hpost : ∀ e ∈ post, e.typ = 0)
+    (htab : (64 + 288 * n : Int) ≤ slot.off)
+    (hend : ∀ e ∈ liveOf (pre ++ slot :: post), e.off + e.size ≤ slot.off)
+    (hwf : WFTable n flen (pre ++ slot :: post)) :
+    WFTable n (max flen (new.off + new.size).toNat) (pre ++ new :: post.map (fun x => { x with off := off' })) := by
+  obtain ⟨hrange, hpair, hunused⟩ := hwf
+  have hpostlive : liveOf post = [] := by
+    apply List.filter_eq_nil_iff.mpr
+    intro e he; simp [hpost e he]
+  have hl : liveOf (pre ++ slot :: post) = liveOf pre := by
+    simp [liveOf, List.filter_append, List.filter_cons, hslot] at hpostlive ⊢
+    exact hpostlive
+  have hpostlive' : liveOf (post.map (fun x => { x with off := off' })) = [] := by
+    apply List.filter_eq_nil_iff.mpr
+    intro e he
+    obtain ⟨x, hx, rfl⟩ := List.mem_map.mp he
+    simp [hpost x hx]
+  have hl' : liveOf (pre ++ new :: post.map (fun x => { x with off := off' })) = liveOf pre ++ [new] := by
+    simp [liveOf, List.filter_append, List.filter_cons, hnew] at hpostlive' ⊢
+    exact hpostlive'
+  rw [hl] at hrange hpair hend
+  refine ⟨?_, ?_, ?_⟩
+  · intro e he
+    rw [hl'] at he
+    rcases List.mem_append.mp he with he | he
+    · have := hrange e he
+      refine ⟨this.1, this.2.1, ?_⟩
+      have h2 := this.2.2
+      omega
+    · simp at he; subst he
+      refine ⟨by omega, hsz, ?_⟩
+      omega
+  · rw [hl', List.pairwise_append]
+    refine ⟨hpair, by simp, ?_⟩
+    intro a ha b' hb
+    simp at hb; subst hb
+    unfold Disjoint2
+    have := hend a ha
+    omega
+  · intro e he ht
+    rcases List.mem_append.mp he with he | he
+    · exact hunused e (List.mem_append.mpr (Or.inl he)) ht
+    · rcases List.mem_cons.mp he with rfl | he
+      · exact absurd ht hnew
+      · obtain ⟨x, hx, rfl⟩ := List.mem_map.mp he
+        exact hunused x (List.mem_append.mpr (Or.inr (List.mem_cons_of_mem _ hx))) (hpost x hx)
+
 end Tdf
